@@ -24,6 +24,8 @@ struct Extract {
     space: &'static str,
     names: Vec<NameSpec>,
     out_relative: bool,
+    /// name of the requested output directory (last path component)
+    out_leaf: &'static str,
     /// strace every case (true) or only the representative subset: names of <= 2 components (false)
     trace_all: bool,
     /// thorough tier: the subset also holds the 3-component names over the core alphabet
@@ -60,7 +62,7 @@ impl Extract {
             Ok("subset") => false,
             _ => trace_all,
         };
-        Extract { space, names, out_relative, trace_all, trace_core3, runner, scratch }
+        Extract { space, names, out_relative, out_leaf: "out", trace_all, trace_core3, runner, scratch }
     }
     fn decode(&self, i: u64) -> (ModeBits, &NameSpec) {
         let d = gen::mixed_radix(i, &[2, 2, 2, self.names.len() as u64]);
@@ -96,6 +98,7 @@ impl Space for Extract {
             "chain": m.chain,
             "select": if m.explicit { "explicit-names" } else { "whole-archive" },
             "output": if self.out_relative { "relative" } else { "absolute" },
+            "output_directory_name": self.out_leaf,
         })
     }
     fn case_timeout(&self) -> u64 {
@@ -108,7 +111,7 @@ impl Space for Extract {
 
         // ---- jail and inputs
         let root = self.scratch.path(&format!("j{i}"));
-        let j = jail::build(&root);
+        let j = jail::build_with_out(&root, self.out_leaf);
         let name = spec.concrete(&j.anchor);
         let tok_adv0 = format!("C11-ADV-BASE-{i:010}-{:016x}\n", hash_str(&name));
         let tok_adv1 = format!("C11-ADV-PATCH-{i:010}-{:016x}\n", hash_str(&name));
@@ -124,7 +127,7 @@ impl Space for Extract {
             std::fs::write(&patch_path, &patch).expect("write patch");
         }
         let out_abs = j.out_abs().to_string_lossy().into_owned();
-        let out_arg = if self.out_relative { "../out".to_string() } else { out_abs.clone() };
+        let out_arg = if self.out_relative { format!("../{}", self.out_leaf) } else { out_abs.clone() };
         let mut args: Vec<String> = vec!["mpq".into(), "extract".into(), "--output".into(), out_arg, "--skip-errors".into()];
         if m.preserve {
             args.push("--preserve-paths".into());
@@ -342,6 +345,18 @@ fn build(name: &str, _arg: &str, tier: Tier) -> Box<dyn Space> {
     match name {
         "grammar" => Box::new(Extract::new("grammar", grammar_names(tier), false, false, tier == Tier::Thorough)),
         "relout" => Box::new(Extract::new("relout", names::enumerate(rel.0, rel.1), true, true, true)),
+        // an output directory whose own name holds a backslash (a separator in entry names, an ordinary character
+        // in a directory name): absolute and relative, every single-component name and the core two-component ones
+        "oddout" => {
+            let mut e = Extract::new("oddout", names::enumerate(1, 2), false, true, true);
+            e.out_leaf = "o\\ut";
+            Box::new(e)
+        }
+        "oddout_rel" => {
+            let mut e = Extract::new("oddout_rel", names::enumerate(1, 1), true, true, true);
+            e.out_leaf = "o\\ut";
+            Box::new(e)
+        }
         _ => panic!("space {name}"),
     }
 }
@@ -401,13 +416,15 @@ fn main() {
         c.assume("observer (ii) on every case of `relout` and, in `grammar`, on every name of <= 2 components and every descend-then-climb name (thorough: also every 3-component name over the core alphabet): strace -f -y restricted to mutating path-taking calls; only calls that succeeded are judged (paths normalised lexically, the jail holds no symlinks); allowed targets: out/, <jail>/home, /dev (devices, not /dev/shm), /proc");
     }
     c.rule = format!(
-        "case = (entry name, preserve-paths, patch chain, selection); names = prefix x body, body = components joined by independently chosen separators; space `grammar` (absolute --output): every body of <= {} components over the full 10-class alphabet plus every body of {} components over the core alphabet {{.., a, empty, B.txt}}, x 6 prefixes (empty first component only behind a rooted prefix), plus the descend-then-climb names {{.., a}}^k B.txt for k = {}..{} (at most 4 `..`, all-backslash and all-slash, no prefix); space `relout` (relative --output ../out): bodies <= {} full / {} core; one adversarial + one benign entry per archive (patch chain: base and patch both carry the adversarial name, distinct tokens). Non-trivial = the tool materialised the adversarial entry somewhere (its unique content token was found on disk); distinct by (space, name, modes). err_return = nothing was extracted at all (refusal).",
+        "case = (entry name, preserve-paths, patch chain, selection); names = prefix x body, body = components joined by independently chosen separators; space `grammar` (absolute --output): every body of <= {} components over the full 10-class alphabet plus every body of {} components over the core alphabet {{.., a, empty, B.txt}}, x 6 prefixes (empty first component only behind a rooted prefix), plus the descend-then-climb names {{.., a}}^k B.txt for k = {}..{} (at most 4 `..`, all-backslash and all-slash, no prefix); space `relout` (relative --output ../out): bodies <= {} full / {} core; spaces `oddout` / `oddout_rel`: the requested output directory is named `o\\ut` (absolute / relative), bodies <= 1 full / 2 core; one adversarial + one benign entry per archive (patch chain: base and patch both carry the adversarial name, distinct tokens). Non-trivial = the tool materialised the adversarial entry somewhere (its unique content token was found on disk); distinct by (space, name, modes). err_return = nothing was extracted at all (refusal).",
         g.0, g.1, climb_sizes(c.tier).0, climb_sizes(c.tier).1, rel.0, rel.1
     );
     // the binary is shared with other checks and rebuilt by ./check: it must not change under us
     let stamp = |p: &str| std::fs::metadata(p).ok().map(|m| (m.len(), m.modified().ok()));
     let stamp0 = stamp(&runner.cli);
     c.run_space("grammar", "");
+    c.run_space("oddout", "");
+    c.run_space("oddout_rel", "");
     c.run_space("relout", "");
     if stamp(&runner.cli) != stamp0 {
         c.machinery_errors.push(format!("the CLI binary {} was replaced while the check was running; results mix two builds", runner.cli));
